@@ -65,7 +65,24 @@ class Race:
                 await asyncio.sleep(0)
         self.loop.run_until_complete(_s())
 
+    def cancel_listener(self):
+        """The application cancels the task that awaits listen() (a timeout, a shutdown) while the
+        release is suspended in a write."""
+        if self.listener is None:
+            return False
+        self.listener.cancel()
+        self.spin()
+        # a write whose caller was cancelled never reached the wire
+        self.tr.pending = [(rec, f) for rec, f in self.tr.pending if not f.cancelled()]
+        if self.listener.done():
+            self.listener = None
+            self.agen = None
+        return True
+
     def reap(self):
+        if self.listener is not None and self.listener.done() and self.listener.cancelled():
+            self.listener = None
+            self.agen = None
         if self.listener is not None and self.listener.done():
             e = self.listener.exception()
             if e is not None:
@@ -170,13 +187,17 @@ def run_actions(version, actions, sleeping=True):
     for a in actions:
         if a[0] == "send":
             r.send(a[1], a[2])
-            mops.append(f"S {a[1][0]} {a[1][1]} {a[1][2]} {a[2]}")
+            if mops is not None:
+                mops.append(f"S {a[1][0]} {a[1][1]} {a[1][2]} {a[2]}")
         elif a[0] == "wake":
-            if r.wake(a[1]):
+            if r.wake(a[1]) and mops is not None:
                 mops += [f"W {a[1]}", "B"]
         elif a[0] == "complete":
-            if r.complete(a[1]):
+            if r.complete(a[1]) and mops is not None:
                 mops += [f"E {1 if a[1] else 0}", "B"]
+        elif a[0] == "cancel":
+            r.cancel_listener()
+            mops = None            # not a schedule of the model (Flush.v has no cancellation)
     r.quiesce([1, 2])
     return r, mops
 
@@ -295,6 +316,27 @@ def run(ctx, model_available=True):
             d.add(encode_model(mops))
             expect.append((version, acts, r.written(), r.buffer(), r.sent))
             r.close()
+    # the task awaiting listen() is cancelled while the release is suspended in its k-th write (a
+    # timeout around listen(), a shutdown); the application listens again, the nodes wake again:
+    # every parked command is still written exactly once (a write whose caller was cancelled did
+    # not reach the wire and its command stays parked)
+    for parked in ([0], [0, 1], [0, 1, 2], [0, 1, 3]):
+        n_writes = len([i for i in parked if KEYS[i][0] == 1])
+        for k in range(n_writes):
+            for with_send in (False, True):
+                for version in ("2.0", "2.1", "2.2"):
+                    acts = [("send", KEYS[i], 100 + i) for i in parked] + [("wake", 1)] + [("complete", True)] * k
+                    if with_send:
+                        acts.append(("send", KEYS[parked[-1]], 250))
+                    acts.append(("cancel",))
+                    r, _ = run_actions(version, acts)
+                    dist["schedules_run"] += 1
+                    dist["listener_cancelled"] = dist.get("listener_cancelled", 0) + 1
+                    kinds.add((version, len(parked), "cancel", k, with_send))
+                    for sig, desc in oracle(r, acts)[:2]:
+                        failures.append({"kind": "oracle", "sig": sig, "desc": f"protocol {version}, listener cancelled inside release write {k + 1}, schedule {acts}: {desc}",
+                                         "case": {"version": version, "actions": acts}})
+                    r.close()
     # sends to nodes that are awake while another node's flush is suspended: direct writes race too
     for _ in range(ctx.budget(100, 1500)):
         acts = [("send", KEYS[0], 100), ("send", KEYS[1], 101), ("wake", 1)]
